@@ -25,6 +25,7 @@ def sh(cmd, **kw):
 
 def main():
     prop, src, name = sys.argv[1:4]
+    src = os.path.abspath(src)
     rest = sys.argv[4:]
     also = []
     baseline = "--baseline" in rest
@@ -79,8 +80,9 @@ def main():
             print(p, "exit", r.returncode, verdict[:1], replay)
         out = os.path.join(VERIF, "seeded", name)
         os.makedirs(out, exist_ok=True)
-        shutil.copy(src + "/patch.diff", out + "/patch.diff")
-        shutil.copy(src + "/demo.py", out + "/demo.py")
+        if os.path.realpath(src) != os.path.realpath(out):
+            shutil.copy(src + "/patch.diff", out + "/patch.diff")
+            shutil.copy(src + "/demo.py", out + "/demo.py")
         meta = {}
         if os.path.exists(src + "/meta.json"):
             try:
